@@ -97,6 +97,9 @@ def fide_doc(ref: AObj, explicit_false: bool, graphics: bool, attr_order: bool, 
         rels = f._f["relations"]
         tabs = "\t" * depth
         if not rels:
+            if description:
+                return [f"{tabs}<feature {attrs(f, mandatory)}>", f"{tabs}\t<description>About {f._f['name']}</description>",
+                        f"{tabs}</feature>"]
             return [f"{tabs}<feature {attrs(f, mandatory)}/>"]
         tag = "and"
         if len(rels) == 1 and len(rels[0]._f["children"]) > 1:
@@ -105,7 +108,7 @@ def fide_doc(ref: AObj, explicit_false: bool, graphics: bool, attr_order: bool, 
         if graphics:
             out.append(f'{tabs}\t<graphics key="collapsed" value="false"/>')
         if description:
-            pass
+            out.append(f"{tabs}\t<description>About {f._f['name']}</description>")
         for r in rels:
             for c in r._f["children"]:
                 m = None if tag != "and" else ((r._f["card_min"], r._f["card_max"]) == (1, 1))
@@ -149,6 +152,11 @@ def featureide(pm: ProgramModel, ctx: Ctx, mb: ModelBuilder) -> None:
         r = read(pm, "FeatureIDEReader", fide_doc(ref, ef, False, False, group_flags=True).encode("utf8"))
         compare(ctx, "C09-FIDE", f"group-children-with-mandatory-flag:explicit-false={ef}", where, r, ref,
                 "FeatureIDE document whose or/alt children carry a mandatory attribute")
+    # <description> elements (FeatureIDE >= 3) inside features and groups carry no model content
+    for gr in (False, True):
+        r = read(pm, "FeatureIDEReader", fide_doc(ref, False, gr, False, description=True).encode("utf8"))
+        compare(ctx, "C09-FIDE", f"feature-descriptions:graphics={gr}", where, r, ref,
+                "FeatureIDE document whose features carry <description> elements")
     # missing constraints section
     ref0 = ref_model(mb)
     ref0._f["ctcs"] = []
@@ -166,6 +174,10 @@ def featureide(pm: ProgramModel, ctx: Ctx, mb: ModelBuilder) -> None:
         "deep-mixed": ("<conj><var>A</var><disj><var>B</var><conj><var>C</var><var>D</var><var>A</var></conj>"
                        "<var>D</var></disj><var>B</var></conj>", None),
     }
+    nary["bare-var"] = ("<var>A</var>", None)
+    nary["bare-var-after-graphics"] = ('<graphics key="k" value="v"/><var>B</var>', None)
+    nary["negated-var"] = ("<not><var>C</var></not>", None)
+    nary["description-then-rule"] = ("<description>why</description><imp><var>A</var><var>B</var></imp>", None)
     for key, (xml, _) in nary.items():
         root = mb.feature("R")
         for nm in "ABCD":
@@ -181,6 +193,8 @@ def featureide(pm: ProgramModel, ctx: Ctx, mb: ModelBuilder) -> None:
             "conj-in-disj": nn(o("OR"), nn(o("OR"), nn("D"), nn(o("AND"), nn("A"), nn("B"))), nn("C")),
             "deep-mixed": nn(o("AND"), nn(o("AND"), nn("A"), nn(o("OR"), nn(o("OR"), nn("B"), nn(o("AND"), nn(o("AND"),
                           nn("C"), nn("D")), nn("A"))), nn("D"))), nn("B")),
+            "bare-var": nn("A"), "bare-var-after-graphics": nn("B"), "negated-var": nn(o("NOT"), nn("C")),
+            "description-then-rule": nn(o("IMPLIES"), nn("A"), nn("B")),
         }[key]
         refm = mb.model(root, [mb.constraint("1", expected)])
         doc = ('<featureModel><struct><and name="R">' + "".join(f'<feature name="{x}"/>' for x in "ABCD") +
@@ -358,6 +372,23 @@ def glencoe(pm: ProgramModel, ctx: Ctx, mb: ModelBuilder) -> None:
     doc = glencoe_doc(refg, ctcs=False)
     r = read(pm, "GlencoeReader", json.dumps(doc))
     compare(ctx, "C09-KEYFLOW", "glencoe-genor", where, r, refg, "Glencoe GENOR groups min=1 max=2 / min=2 max=2 of 3")
+    # every group cardinality the format can state, exactly as written (bounds 0 included)
+    ngen = 0
+    for nkids in (2, 3):
+        for lo in range(0, nkids + 1):
+            for hi in range(max(lo, 1) if lo else 0, nkids + 1):
+                if hi < lo or (lo, hi) == (1, 1) or (lo == 1 and hi == nkids):
+                    continue
+                rootc = mb.feature("R")
+                gc = mb.feature("G")
+                mb.relation(rootc, [gc], 1, 1)
+                mb.relation(gc, [mb.feature(f"k{i}") for i in range(nkids)], lo, hi)
+                refc = mb.model(rootc, [])
+                rr = read(pm, "GlencoeReader", json.dumps(glencoe_doc(refc, ctcs=False)))
+                ngen += 1
+                compare(ctx, "C09-KEYFLOW", f"glencoe-genor:min={lo},max={hi},n={nkids}", where, rr, refc,
+                        f"Glencoe GENOR group min={lo} max={hi} of {nkids}")
+    ctx.floor("C09-KEYFLOW", "glencoe GENOR cardinalities", ngen, 10)
     # unknown feature type -> library error, not a stale / undefined relation
     doc2 = json.loads(json.dumps(doc))
     for v in doc2["features"].values():
